@@ -155,11 +155,14 @@ package client
 //@   modifies *
 
 // Precedence ClientID > exact address (> subnet, inside findByIP) > MAC of the DHCP lease; own settings only on opt-out.
+// (Also part of C01: rules restricted to a client by name or tag - $client='name', $ctag=... - belong to the rule set in
+// force for that client whether or not it uses its own settings, so the name and tags reach the filter in either case.)
 //@ func (s *Storage) ApplyClientFiltering(id string, addr netip.Addr, setts *filtering.Settings)
-//@   property C04
+//@   property C04, C01
 //@   requires nolocks()
 //@   requires s.index != nil && wfRefs(s.index) && mapsOK(s.index)
 //@   ensures by-clientid: old(id in s.index.clientIDToUID) ==> setts.ClientName == old(s.index.uidToClient[s.index.clientIDToUID[id]].Name)
+//@   ensures tags-by-clientid: old(id in s.index.clientIDToUID) ==> len(setts.ClientTags) == old(len(s.index.uidToClient[s.index.clientIDToUID[id]].Tags))
 //@   ensures by-address: !old(id in s.index.clientIDToUID) && old(addr in s.index.ipToUID) ==> setts.ClientName == old(s.index.uidToClient[s.index.ipToUID[addr]].Name)
 //@   ensures own-settings-clientid: old(id in s.index.clientIDToUID) && old(s.index.uidToClient[s.index.clientIDToUID[id]].UseOwnSettings) ==> setts.FilteringEnabled == old(s.index.uidToClient[s.index.clientIDToUID[id]].FilteringEnabled) && setts.SafeBrowsingEnabled == old(s.index.uidToClient[s.index.clientIDToUID[id]].SafeBrowsingEnabled) && setts.ParentalEnabled == old(s.index.uidToClient[s.index.clientIDToUID[id]].ParentalEnabled)
 //@   ensures global-settings-clientid: old(id in s.index.clientIDToUID) && !old(s.index.uidToClient[s.index.clientIDToUID[id]].UseOwnSettings) ==> setts.FilteringEnabled == old(setts.FilteringEnabled) && setts.SafeBrowsingEnabled == old(setts.SafeBrowsingEnabled) && setts.ParentalEnabled == old(setts.ParentalEnabled) && setts.SafeSearchEnabled == old(setts.SafeSearchEnabled)
